@@ -10,7 +10,8 @@ reachability closure after every query, and so must every memoised entry.  Thoro
 
 Layer B (real files, real `cythonize()` in a fresh forked process per call):
   B1  static sweep: every digraph on 3 .pxd nodes (64) realised with cimport statements, include chains,
-      packages with relative / absolute / from-package cimports.  Real compile of the fresh tree: every
+      packages with relative / absolute / from-package cimports, dependency files named like the special
+      'cython' module (cython_x, cythonx, cy, Cython_x, cythonpkg/dep, cython_inc.pxi).  Real compile of the fresh tree: every
       module regenerated, the set of project files the compiler opens (audit hook) and
       DependencyTree.all_dependencies must both equal the true closure.  Then, for every file f in turn,
       f alone is made newer than all C files (and: equal to the C time, and: nothing touched) and the
@@ -304,6 +305,23 @@ def _special_trees():
                                                  'pkg/sub/c.pxd': 'ctypedef int tc\n',
                                                  'pkg/z.pxd': 'ctypedef int tz\n'},
                         lambda bits: {'pkg/a.pyx': ['pkg/b.pxd'], 'pkg/b.pxd': ['pkg/sub/c.pxd']}, cls=cls))
+    # dependency files whose NAMES merely resemble the special 'cython' module
+    names = [('cython_x', 'from cython_x cimport tn', 'cython_x.pxd'), ('cython_x-cimport', 'cimport cython_x', 'cython_x.pxd'),
+             ('cythonx', 'from cythonx cimport tn', 'cythonx.pxd'), ('cy', 'cimport cy', 'cy.pxd'),
+             ('Cython_x', 'from Cython_x cimport tn', 'Cython_x.pxd'),
+             ('cythonpkg', 'from cythonpkg.dep cimport tn', 'cythonpkg/dep.pxd'),
+             ('cythonpkg-cimport', 'cimport cythonpkg.dep', 'cythonpkg/dep.pxd')]
+    for name, stmt, fn in names:
+        out.append(Tree('name-' + name, ['a.pyx'], 0,
+                        lambda bits, stmt=stmt, fn=fn: dict({'a.pyx': stmt + '\ndef fa(x):\n    return x\n',
+                                                              fn: 'from leaf cimport tl\nctypedef int tn\n',
+                                                              'leaf.pxd': 'ctypedef int tl\n', 'z.pxd': 'ctypedef int tz\n'},
+                                                             **({'cythonpkg/__init__.py': ''} if '/' in fn else {})),
+                        lambda bits, fn=fn: {'a.pyx': [fn], fn: ['leaf.pxd']}, cls='cython-like-name'))
+    out.append(Tree('name-cython_inc', ['a.pyx'], 0,
+                    lambda bits: {'a.pyx': 'include "cython_inc.pxi"\ndef fa(x):\n    return x + NI\n',
+                                  'cython_inc.pxi': 'cimport leaf\nNI = 1\n', 'leaf.pxd': 'ctypedef int tl\n'},
+                    lambda bits: {'a.pyx': ['cython_inc.pxi'], 'cython_inc.pxi': ['leaf.pxd']}, cls='cython-like-name'))
     return out
 
 
